@@ -184,6 +184,34 @@ def run(ctx):
         else:
             ctx.holds("Q2", "%s: stops reading on Response" % asm.qualname)
 
+    q34(ctx, R)
+
+    # ---- multi-step operation: the emulated rename reports success iff every step was answered OK (rules R1, R5, R6 of C14)
+    from .c14 import rename_rules
+    rename_rules(ctx, R)
+
+    # ---- Q5 ----------------------------------------------------------------------
+    ep = R.error_parser
+    ctx.rule("Q5", "errcode/errmsg are written from server data only by the error parser (elsewhere: constants)")
+    nw = 0
+    for attr in ("errcode", "errmsg"):
+        for f, node, kind, text in attr_writes(ctx.program, attr, modules=["managesieve"]):
+            nw += 1
+            if f is ep:
+                continue
+            st = stmt_of(node)
+            v = const_value(ctx.program, f, st.value) if isinstance(st, (ast.Assign, ast.AnnAssign)) and st.value is not None else TOP
+            if v is TOP:
+                ctx.violation("Q5", f, "errattr-written:%s" % attr, "%s is assigned a computed value outside the error parser: %s"
+                              % (attr, norm(st)), node=node)
+            else:
+                ctx.holds("Q5", "%s: constant %s" % (f.qualname, norm(st)))
+    ctx.need("Q5", "writes of errcode/errmsg", nw, 5)
+
+
+def q34(ctx, R):
+    lin = R.line_reader
+    from ref import ms_spec
     # ---- Q3 ----------------------------------------------------------------------
     ctx.rule("Q3", "a regex group proved optional is never used as bytes without a None test (followed into callees)")
     ng = 0
@@ -279,6 +307,41 @@ def run(ctx):
                                   % (mvar, pr[1]), node=unguarded[0], witness="reply `NO`")
                 else:
                     ctx.holds("Q4", "%s: %r accepts every RFC tail and the empty tail" % (ep.qualname, pr[1]))
+    # every RFC tail is matched IN FULL by a pattern whose result is used unconditionally (a tail that is only partly matched
+    # leaves its literal unread / its code unreported), and a literal text is recognised whether or not a code precedes it
+    for n in walk_no_nested(ep.node):
+        if isinstance(n, ast.Assign) and isinstance(n.value, ast.Call) and isinstance(n.value.func, ast.Attribute) \
+                and n.value.func.attr == "match" and isinstance(n.targets[0], ast.Name):
+            pr = R.pattern_of(n.value.func.value, ep)
+            if not pr or not n.value.args:
+                continue
+            a0 = n.value.args[0]
+            if proto_kind(pr[1]) == "size":
+                # what is the size pattern applied to?
+                if isinstance(a0, ast.Name) and a0.id == text_param:
+                    # anchored at the start of the whole tail: a literal after a response code is never seen
+                    others = [x for x in walk_no_nested(ep.node) if isinstance(x, ast.Call) and isinstance(x.func, ast.Attribute)
+                              and x.func.attr in ("match", "search") and x is not n.value and R.pattern_of(x.func.value, ep)
+                              and proto_kind(R.pattern_of(x.func.value, ep)[1]) == "size"]
+                    if not others:
+                        ctx.violation("Q4", ep, "literal-after-code", "the literal-size pattern is only applied to the whole text after NO (anchored at "
+                                      "its start): `NO (CODE) {n}` is not recognised as carrying a literal", node=n,
+                                      witness="`NO (QUOTA/MAXSCRIPTS) {16}` + 16 octets: errmsg is '{16}' and the 16 octets are read as the next reply")
+                    continue
+                ctx.holds("Q4", "literal size looked up in %s" % norm(a0))
+                continue
+            if not (isinstance(a0, ast.Name) and a0.id == text_param):
+                continue
+            try:
+                d = rx.language_diff(T, rx.Pattern(pr[1], pr[2]), mode="subset")
+            except rx.Undecidable as e:
+                raise AnalysisError("Q4", "cannot analyse %r: %s" % (pr[1], e))
+            if d is None:
+                ctx.holds("Q4", "%r matches every RFC 5804 NO tail in full" % pr[1])
+            else:
+                ctx.violation("Q4", ep, "tail-partly-matched", "the error pattern %r cannot match the RFC 5804 tail %r in full: the unmatched rest "
+                              "(response code / text / literal) is ignored" % (pr[1], d[0]), node=n,
+                              witness="`NO %s`: errcode/errmsg wrong, and if the text is a literal its octets are read as the next reply" % d[0].decode("latin-1"))
     # the response-code group ends at the first ")": otherwise a ")" in the human-readable text is swallowed into errcode
     ctx.rule("Q6", "the response-code group of the error pattern cannot extend past the first `)`")
     for n in walk_no_nested(ep.node):
@@ -311,26 +374,15 @@ def run(ctx):
                           "error's value is reported" % attr, node=ep.node)
     # code group covers the RFC code syntax, text group the quoted / literal forms: the error parser's first group must contain
     # the resp-code and nothing else for well-formed tails  (checked as: pattern group 1, when present, is '(' ... ')')
-    # ---- multi-step operation: the emulated rename reports success iff every step was answered OK (rules R1, R5, R6 of C14)
-    from .c14 import rename_rules
-    rename_rules(ctx, R)
 
-    # ---- Q5 ----------------------------------------------------------------------
-    ctx.rule("Q5", "errcode/errmsg are written from server data only by the error parser (elsewhere: constants)")
-    nw = 0
-    for attr in ("errcode", "errmsg"):
-        for f, node, kind, text in attr_writes(ctx.program, attr, modules=["managesieve"]):
-            nw += 1
-            if f is ep:
-                continue
-            st = stmt_of(node)
-            v = const_value(ctx.program, f, st.value) if isinstance(st, (ast.Assign, ast.AnnAssign)) and st.value is not None else TOP
-            if v is TOP:
-                ctx.violation("Q5", f, "errattr-written:%s" % attr, "%s is assigned a computed value outside the error parser: %s"
-                              % (attr, norm(st)), node=node)
-            else:
-                ctx.holds("Q5", "%s: constant %s" % (f.qualname, norm(st)))
-    ctx.need("Q5", "writes of errcode/errmsg", nw, 5)
+
+def proto_kind(pat):
+    if isinstance(pat, bytes):
+        if pat.startswith(rb"\{"):
+            return "size"
+        if b"OK" in pat:
+            return "status"
+    return None
 
 
 def _group_sub(P, gid):
